@@ -794,7 +794,7 @@ func runConc(job *spec.Job) spec.Result {
 	simrt.ResetSync()
 	sc := simrt.SchedCfg{Policy: "random", MaxSteps: 1 << 24}
 	if job.Sched != nil {
-		sc = simrt.SchedCfg{Policy: job.Sched.Policy, Seed: job.Sched.Seed, Depth: job.Sched.Depth, EntryPct: job.Sched.EntryPct, LoopPct: job.Sched.LoopPct,
+		sc = simrt.SchedCfg{Policy: job.Sched.Policy, Seed: job.Sched.Seed, Depth: job.Sched.Depth, Steps: job.Sched.Steps, EntryPct: job.Sched.EntryPct, LoopPct: job.Sched.LoopPct,
 			Explicit: job.Sched.Explicit, MaxSteps: 1 << 24}
 	}
 	s := simrt.NewSched(sc)
